@@ -26,6 +26,8 @@ func checkC07(c *Ctx) {
 	c.Expect("C07.1", 4)
 	c.Expect("C07.2", 2)
 	c.Expect("C07.5", 4)
+	c.Expect("C07.4", 3)
+	c.Expect("C07.6", 2)
 
 	nextView := p.Method("protocol", "ViewStates", "NextView")
 	updQC := p.Method("protocol", "ViewStates", "UpdateHighQC")
@@ -120,8 +122,9 @@ func checkC07(c *Ctx) {
 			c.Unresolved("C07.4", "advanceView", "no VerifySyncInfo call")
 		} else {
 			vk := fl.K.Key(vsi.Value())
-			for _, s := range callsIn(adv, false, func(cc *ssa.CallCommon) bool { return calleeIs(cc, nextView) }) {
-				facts := fl.At(s)
+			for _, ds := range deepSites(fl, func(cc *ssa.CallCommon) bool { return calleeIs(cc, nextView) }, 0) {
+				s := ds.Site
+				facts := ds.Facts
 				ok1 := errNilOf(facts, is(vk+"#3"))
 				ok2 := hasCmp(facts, "<=", func(k string) bool { return strings.HasPrefix(k, "(*hs/protocol.ViewStates).View(") }, is(vk+"#1"))
 				c.Check(ok1, "C07.4/verified", "advanceView->NextView", p.Pos(s.Pos()),
@@ -130,20 +133,27 @@ func checkC07(c *Ctx) {
 					"NextView only when state.View() <= the view returned by VerifySyncInfo",
 					"NextView reachable with a verified view below the current view; facts: "+join(facts.Sorted()))
 			}
-			for _, s := range callsIn(adv, false, func(cc *ssa.CallCommon) bool { return calleeIs(cc, updQC) }) {
-				facts := fl.At(s)
-				arg := fl.K.Key(s.Common().Args[1])
+			for _, ds := range deepSites(fl, func(cc *ssa.CallCommon) bool { return calleeIs(cc, updQC) }, 0) {
+				s := ds.Site
+				facts := ds.Facts
+				arg := ds.Args[1]
 				ok := arg == "*"+vk+"#0" && errNilOf(facts, is(vk+"#3"))
 				c.Check(ok, "C07.4/verified", "advanceView->UpdateHighQC", p.Pos(s.Pos()),
 					"UpdateHighQC receives the QC returned by a successful VerifySyncInfo", "UpdateHighQC("+arg+") not tied to a verified QC; facts: "+join(facts.Sorted()))
 			}
 			// C07.6 view-change signal
 			vce := namedType(p, "", "ViewChangeEvent")
-			for _, s := range callsIn(adv, false, func(cc *ssa.CallCommon) bool { return calleeIs(cc, nextView) }) {
-				nk := fl.K.Key(s.Value())
+			for _, ds := range deepSites(fl, func(cc *ssa.CallCommon) bool { return calleeIs(cc, nextView) }, 0) {
+				s := ds.Site
+				// within the function that calls NextView (advanceView or the private helper it was split into)
+				ifl := fl
+				if ds.In != adv {
+					ifl = NewFlow(p, ds.In)
+				}
+				nk := ifl.K.Key(s.Value())
 				var okEmit *ssa.Alloc
 				for _, e := range p.constructSites(vce) {
-					if e.Fn == adv && e.Alloc != nil && fl.K.Key(complitField(e.Alloc, "View")) == nk {
+					if e.Fn == ds.In && e.Alloc != nil && ifl.K.Key(complitField(e.Alloc, "View")) == nk {
 						okEmit = e.Alloc
 					}
 				}
@@ -165,8 +175,14 @@ func checkC07(c *Ctx) {
 					"a return is reachable after NextView without the ViewChangeEvent carrying the new view")
 			}
 			sites := p.constructSites(vce)
-			c.Check(setEq(emitNames(sites), []string{"(*hs/protocol/synchronizer.Synchronizer).advanceView"}), "C07.6", "ViewChangeEvent construction", p.FuncPos(adv),
-				"ViewChangeEvent is constructed only in advanceView", "ViewChangeEvent constructed in: "+join(emitNames(sites)))
+			vnames := emitNames(sites)
+			for _, e := range sites {
+				if p.ownedByAny(e.Fn, []string{"(*hs/protocol/synchronizer.Synchronizer).advanceView"}) {
+					vnames = replaceName(vnames, shortName(declaredParent(e.Fn)), "(*hs/protocol/synchronizer.Synchronizer).advanceView")
+				}
+			}
+			c.Check(setEq(vnames, []string{"(*hs/protocol/synchronizer.Synchronizer).advanceView"}), "C07.6", "ViewChangeEvent construction", p.FuncPos(adv),
+				"ViewChangeEvent is constructed only in advanceView", "ViewChangeEvent constructed in: "+join(vnames))
 		}
 	} else {
 		c.Unresolved("C07.4", "advanceView", "anchor missing")
